@@ -141,10 +141,12 @@ func init() {
 		for _, q := range []struct {
 			fn  string
 			idx int
-		}{{"(*pkg/packet/bgp.PathAttribute).DecodeFromBytes", 1}, {"(*pkg/packet/bgp.PathAttribute).DecodeFromBytes", 2}, {"(*pkg/packet/bgp.PathAttributeAggregator).DecodeFromBytes", 1}} {
+		}{{"(*pkg/server.BgpServer).prePolicyFilterpath", 2}, {"(*pkg/server.BgpServer).postFilterpath", 2}, {"internal/pkg/table.UpdatePathAttrs", 3}} {
 			fn := p.Func(q.fn)
 			for _, s := range e.WritesParam(fn, q.idx) {
-				fmt.Println(q.fn, q.idx, e.Describe(s), s.Path)
+				if isRouteContentField(s.Origin().Field) {
+					fmt.Println(q.fn, q.idx, e.Describe(s), "\n      ", strings.Join(s.Path, "\n       "))
+				}
 			}
 			fmt.Println(q.fn, q.idx, "alias", e.ReturnsAlias(fn, q.idx))
 		}
@@ -249,6 +251,17 @@ func init() {
 			fmt.Println("==", fn.Name(), len(outs), "rows", ev.Problems)
 			for _, o := range outs {
 				fmt.Println("   ", o)
+			}
+		}
+	}
+}
+
+func init() {
+	debugHooks["callers"] = func(p *ir.Program) {
+		for _, k := range []string{"(*internal/pkg/table.Vrf).ToGlobalPath", "(*pkg/server.BgpServer).fixupApiPath"} {
+			fn := p.Func(k)
+			for _, e := range p.Callers(fn) {
+				fmt.Println(k, "<-", ir.OuterKey(e.Caller.Func), ir.FuncKey(e.Caller.Func))
 			}
 		}
 	}
